@@ -7,7 +7,11 @@ a decimal half is not exactly a half).
 import PdbModel.PdbRead
 namespace PdbModel
 
-def natDigits (n : Nat) : List Char := (toString n).toList
+/-- decimal digits of a natural number, most significant first (what `to_string` / `{}` print) -/
+def natDigits (n : Nat) : List Char :=
+  if n < 10 then [Char.ofNat (48 + n)] else natDigits (n / 10) ++ [Char.ofNat (48 + n % 10)]
+termination_by n
+decreasing_by omega
 
 /-- `format!("{:W.D}", v)` for a decimal `v` given in units of 10⁻⁶ -/
 def fmtFixed (v : Int) (width dec : Nat) : List Char :=
